@@ -1908,3 +1908,107 @@ Qed.
 Example label_cache_region_example :
   labels_determine [op_users_admin; op_get; op_users_admin] = true /\ labels_determine [op_users_admin; op_users_public] = false.
 Proof. vm_compute. split; reflexivity. Qed.
+(* ====================================================================================== *)
+(* Part G: several hooks under one name (seed C19_g)                                      *)
+(* ====================================================================================== *)
+Lemma of_kind_app k l1 l2 : of_kind k (l1 ++ l2) = of_kind k l1 ++ of_kind k l2.
+Proof. unfold of_kind. rewrite filter_app, map_app. reflexivity. Qed.
+
+Lemma of_kind_tagged k k' (l : list N) :
+  of_kind k (map (fun f => (k', f)) l) = if hk_eqb k' k then l else [].
+Proof.
+  unfold of_kind. induction l as [|a l IH]; cbn [map filter fst].
+  - destruct (hk_eqb k' k); reflexivity.
+  - destruct (hk_eqb k' k) eqn:E; cbn [map snd]; rewrite IH; reflexivity.
+Qed.
+
+Lemma count_n_filter (p : N -> bool) f l :
+  count_n f (filter p l) = if p f then count_n f l else 0.
+Proof.
+  unfold count_n. induction l as [|a l IH]; cbn [filter].
+  - destruct (p f); reflexivity.
+  - destruct (p a) eqn:Pa; cbn [filter]; destruct (N.eqb f a) eqn:E; cbn [length].
+    + apply N.eqb_eq in E; subst a. rewrite Pa in *. rewrite IH. reflexivity.
+    + exact IH.
+    + apply N.eqb_eq in E; subst a. rewrite Pa in *. exact IH.
+    + exact IH.
+Qed.
+
+(* the hooks of ONE name on one dispatcher: the case runs exactly the selected ones, in registration order *)
+Lemma same_name_in_order st di k o :
+  of_kind k (apply_case_hooks st di o)
+  = filter (fun f => negb (should_skip st f (Some o))) (all_by_name st di (NGen k TCase)).
+Proof.
+  unfold apply_case_hooks, kinds, fired. cbn [flat_map].
+  rewrite !of_kind_app, !of_kind_tagged. cbn [of_kind map filter].
+  destruct k; cbn [hk_eqb]; rewrite ?app_nil_r; reflexivity.
+Qed.
+
+(* ... each selected one as often as it is registered under that name (once per registration), a filtered-out one never *)
+Lemma same_name_each_once st di k o f :
+  count_n f (of_kind k (apply_case_hooks st di o))
+  = if should_skip st f (Some o) then 0 else count_n f (all_by_name st di (NGen k TCase)).
+Proof.
+  rewrite same_name_in_order, count_n_filter. destruct (should_skip st f (Some o)); reflexivity.
+Qed.
+
+(* over the three scopes: global, schema, test - nothing of one name is lost or repeated *)
+Lemma same_name_all_scopes st g s t k o :
+  of_kind k (as_strategy_case_hooks st g s t o)
+  = fired st (Some o) (all_by_name st g (NGen k TCase)) ++ fired st (Some o) (all_by_name st s (NGen k TCase))
+    ++ match t with Some ti => fired st (Some o) (all_by_name st ti (NGen k TCase)) | None => [] end.
+Proof.
+  unfold as_strategy_case_hooks. rewrite !of_kind_app, !same_name_in_order.
+  destruct t; [rewrite same_name_in_order|]; reflexivity.
+Qed.
+
+(* the sentinel inside its region: with at most one hook per name there is no later hook to be confused with *)
+Lemma late_one_hook st ctx k fs : length fs <= 1 -> callbacks_late st ctx k fs = bound_callbacks st ctx fs.
+Proof.
+  intros H. destruct k; [reflexivity| | |]; unfold callbacks_late, bound_callbacks_late, bound_callbacks, fired;
+  (destruct fs as [|a [|b fs]]; [reflexivity | cbn [filter last]; destruct (negb (should_skip st a ctx)); reflexivity | cbn in H; lia]).
+Qed.
+
+Lemma late_binding_single_hook st di o :
+  one_per_case_name st di = true -> apply_case_hooks_late st di o = apply_case_hooks st di o.
+Proof.
+  unfold one_per_case_name, kinds. cbn [forallb]. rewrite !andb_true_iff, !Nat.leb_le.
+  intros (H1 & H2 & H3 & H4 & _).
+  unfold apply_case_hooks_late, apply_case_hooks, kinds. cbn [flat_map].
+  rewrite !late_one_hook by assumption. reflexivity.
+Qed.
+
+(* witness: two map_case hooks on the schema dispatcher, the first for GET, the second for POST *)
+Definition f_map_case2 : hookfn := {| h_id := 7; h_name := NGen KMap TCase; h_arity := 2 |}.
+Definition hist_same_name : list op :=
+  [OFilter 1 true (call_method sGET); ORegFn 1 f_map_case; OFilter 1 true (call_method sPOST); ORegFn 1 f_map_case2].
+
+Lemma late_binding_witness :
+  let st := fst (run [Global; Schema] [0; 1] hist_same_name) in
+  all_by_name st 1 (NGen KMap TCase) = [6%N; 7%N] /\
+  should_skip st 6%N (Some op_get) = false /\ should_skip st 7%N (Some op_get) = true /\
+  generation_hooks st 0 1 None TCase op_get = [(KMap, 6%N)] /\
+  generation_hooks st 0 1 None TCase op_post = [(KMap, 7%N)] /\
+  generation_hooks_late st 0 1 None TCase op_get = [(KMap, 7%N)] /\
+  generation_hooks_late st 0 1 None TCase op_post = [(KMap, 7%N)].
+Proof. vm_compute. repeat split; reflexivity. Qed.
+
+Lemma late_binding_refuted :
+  let st := fst (run [Global; Schema] [0; 1] hist_same_name) in
+  should_skip st 7%N (Some op_get) = true /\
+  count_n 7%N (of_kind KMap (apply_case_hooks_late st 1 op_get)) = 1 /\
+  should_skip st 6%N (Some op_get) = false /\
+  count_n 6%N (all_by_name st 1 (NGen KMap TCase)) = 1 /\
+  count_n 6%N (of_kind KMap (apply_case_hooks_late st 1 op_get)) = 0.
+Proof. vm_compute. repeat split; reflexivity. Qed.
+
+(* three hooks of one name, all selected: the code runs each once, the sentinel runs the last one three times *)
+Example same_name_three :
+  let ops := [ORegFn 1 f_map_case; OFilter 1 true (call_method sGET); ORegFn 1 f_map_case2;
+              ORegName 1 (NGen KMap TCase); ODecApply 0 f_map_query] in
+  let st := fst (run [Global; Schema] [0; 1] ops) in
+  of_kind KMap (apply_case_hooks st 1 op_get) = [6%N; 7%N; 21%N] /\
+  of_kind KMap (apply_case_hooks_late st 1 op_get) = [21%N; 21%N; 21%N] /\
+  of_kind KMap (apply_case_hooks st 1 op_post) = [6%N; 21%N] /\
+  one_per_case_name st 1 = false /\ one_per_case_name st 0 = true.
+Proof. vm_compute. repeat split; reflexivity. Qed.
